@@ -69,3 +69,14 @@ func VerifOccCurrentNode(t *Transaction, i int) sop.UUID {
 	}
 	return sop.NilUUID
 }
+
+// VerifOccCurrentNodeIsInner: the cursor of the i-th opened [int,string] store is on an item of a node with children.
+func VerifOccCurrentNodeIsInner(ctx context.Context, t *Transaction, i int) bool {
+	if i < 0 || i >= len(t.btreesBackend) {
+		return false
+	}
+	if b3, ok := t.btreesBackend[i].btree.(*btree.Btree[int, string]); ok {
+		return btree.VerifOccCurrentNodeHasChildren(ctx, b3)
+	}
+	return false
+}
